@@ -5,6 +5,8 @@
 //! `case ...` starts a fresh component. A panic inside the real code is reported as
 //! `panic <message>`; the rest of that case is answered `skipped`.
 
+mod local;
+
 use std::io::{BufRead, Write};
 use std::panic::{catch_unwind, AssertUnwindSafe};
 
@@ -18,7 +20,8 @@ fn main() {
     let stdin = std::io::stdin();
     let stdout = std::io::stdout();
     let mut out = std::io::BufWriter::new(stdout.lock());
-    let mut boxed = litep2p::verif::new_box(&area);
+    let make = |a: &str| local::new_box(a).or_else(|| litep2p::verif::new_box(a));
+    let mut boxed = make(&area);
     if boxed.is_none() {
         eprintln!("unknown area {area}");
         std::process::exit(2);
@@ -34,7 +37,7 @@ fn main() {
             // a poisoned box may panic again on drop
             let old = boxed.take();
             let _ = catch_unwind(AssertUnwindSafe(move || drop(old)));
-            boxed = litep2p::verif::new_box(&area);
+            boxed = make(&area);
             poisoned = false;
             writeln!(out, "case").unwrap();
             continue;
